@@ -78,7 +78,7 @@ def build_harness(config="std"):
     if config in _built:
         return _built[config]
     feats = {"std": [], "nostd": ["--no-default-features"],
-             "serde": ["--features", "with_serde"]}[config]
+             "serde": ["--features", "with_serde"], "nohook": []}[config]
     hdir = HARNESS
     if REPO != "/repo":
         if not SCRATCH:
@@ -91,6 +91,9 @@ def build_harness(config="std"):
     tdir = os.path.join(hdir, "target", config)
     cmd = ["cargo", "build", "--offline", "--quiet", "--target-dir", tdir] + feats
     env = {"CARGO_NET_OFFLINE": "true"}
+    if config == "nohook":
+        # the production configuration: guard OFF, the polling scanner uses std::time::Instant
+        env["RUSTFLAGS"] = "--check-cfg cfg(helgoboss_midi_verif)"
     rc, out, dt = sh(cmd, cwd=hdir, env=env, timeout=900, check=False)
     if rc != 0:
         raise ToolError("harness build failed (%s):\n%s" % (config, out[-4000:]))
